@@ -18,6 +18,7 @@ Inductive sstep :=
 | SConnect (first : option frame)      (* connect: Connect starts, the peer queues the first frame (None: no_first) *)
 | SPeerSend (p : pframe)               (* peer_send / keepalive *)
 | SReply (to : nat) (f : frame)        (* reply: f with the id of the to-th frame the peer has read *)
+| SReplyCut (to : nat) (f : frame) (k : N)   (* reply with cut: only the first k bytes of that frame are written *)
 | SSend (c : N) (r : req)              (* send *)
 | SShutdown (c : N)                    (* shutdown: Shutdown(ctx) runs as caller c *)
 | SExpectFrame
@@ -90,6 +91,17 @@ Fixpoint first_where {A} (p : A -> bool) (l : list A) : option A :=
 (* is the whole frame available to the client? *)
 Definition whole (p : pframe) : bool := match pf_cut p with None => true | Some _ => false end.
 
+(* the order in which callers reached the send queue (oldest first): blocked senders of a Go channel are served
+   first come first served, and a caller gets there when it passes the gate (or at once, for the internal send) —
+   not in the order of the calls *)
+Definition arrivals (evs : list event) : list N :=
+  flat_map (fun e => match e with
+                     | PassGate c => [c]
+                     | Submit c r => if q_gate r then [] else [c]
+                     | NegSubmit c => [c]
+                     | _ => []
+                     end) (rev_append evs []).      (* (List.rev is quadratic) *)
+
 (* one internal move, if any is possible. Priorities mirror what a quiescence-to-quiescence
    run of the Go program does when only one thing can happen at a time (see notes/client-core.md
    for the rules script generators follow so that this is the case). *)
@@ -97,15 +109,28 @@ Definition next_internal (sc : sconfig) (m : mstate) : option (event * mstate) :
   let s := m_st m in
   let go e := Some (e, m) in
   let consume e := Some (e, set_peerq (tl (m_peerq m)) m) in
+  (* --- a goroutine that is running goes on until it blocks: the read loop, back at its loop head after a
+         frame, does its non-blocking look at done and calls readHeader BEFORE any goroutine that frame woke up
+         (negotiate looking at its reply and failing, ...) gets to run. So a frame that makes Connect give up does
+         not stop the read loop from taking the next frame the peer sends. (Shutdown's Close was already ordered
+         this way: shutdown_moves runs after the step's settle.) --- *)
+  match reader s, closed s with
+  | RTop, false => go RCheck
+  | _, _ =>
   (* --- Connect --- *)
-  match phase s with
-  | PCheckInitial =>
-      match m_peerq m with
-      | p :: _ => if whole p then consume (ConnFirst (pf_frame p) (hb_for sc (f_typ (pf_frame p))))
-                  else if m_peer_closed m then consume ConnFirstFail else None
-      | [] => if m_peer_closed m then go ConnFirstFail else None
-      end
-  | _ =>
+  let first_move :=        (* checkInitialMessage; while it waits for the first message the callers still move *)
+    match phase s with
+    | PCheckInitial =>
+        match m_peerq m with
+        | p :: _ => if whole p then consume (ConnFirst (pf_frame p) (hb_for sc (f_typ (pf_frame p))))
+                    else if m_peer_closed m then consume ConnFirstFail else None
+        | [] => if m_peer_closed m then go ConnFirstFail else None
+        end
+    | _ => None
+    end in
+  match first_move with
+  | Some x => Some x
+  | None =>
   let conn :=
     match phase s with
     | PNegotiating NGsv None | PNegotiating NSpv None => Some (NegSubmit (neg_caller s))
@@ -146,9 +171,14 @@ Definition next_internal (sc : sconfig) (m : mstate) : option (event * mstate) :
         if closed s then Some WSeeDone
         else match ackq s with
              | _ :: _ => Some WTakeAck
-             | [] => match first_where (fun cp => match snd cp with Queued _ => true | _ => false end) (callers s) with
-                     | Some (c, _) => Some (WAccept c)
-                     | None => None
+             | [] => (* the queued callers (few), then the oldest arrival among them; the history is walked only when
+                        somebody is queued *)
+                     match map fst (filter (fun cp => match snd cp with Queued _ => true | _ => false end) (callers s)) with
+                     | [] => None
+                     | queued => match first_where (fun c => existsb (N.eqb c) queued) (arrivals (m_events m)) with
+                                 | Some c => Some (WAccept c)
+                                 | None => None
+                                 end
                      end
              end
     | WParked => if closed s then Some WSeeDone else None
@@ -180,7 +210,7 @@ Definition next_internal (sc : sconfig) (m : mstate) : option (event * mstate) :
       | [] => if m_peer_closed m then go (PeerEOF EofBoundary) else None
       end
   | _ => None
-  end end end end end end.
+  end end end end end end end.
 
 Fixpoint settle (sc : sconfig) (fuel : nat) (m : mstate) : mstate :=
   match fuel with
@@ -276,6 +306,11 @@ Definition exec (sc : sconfig) (m : mstate) (st : sstep) : mstate * obs :=
   | SReply to f =>
       match nth_error (m_seen m) to with
       | Some o => peer_put sc (mkPFrame (mkFrame (f_ver f) (f_typ f) (f_id (o_frame o)) (f_len f) (f_tag f) (f_info f)) None) m
+      | None => (m, ObBad)
+      end
+  | SReplyCut to f k =>
+      match nth_error (m_seen m) to with
+      | Some o => peer_put sc (mkPFrame (mkFrame (f_ver f) (f_typ f) (f_id (o_frame o)) (f_len f) (f_tag f) (f_info f)) (Some k)) m
       | None => (m, ObBad)
       end
   | SSend c r =>
